@@ -88,7 +88,22 @@ func TestC21(t *testing.T) {
 				return sigh.CheckAckImpliesDelivered(x.Log)
 			}}
 	}, func(v *vsync.Violation) string { return strings.Fields(v.What)[0] })
+	// S1: acks and clears for messages that were never received, and for the right message
+	s1 := []sigh.Scen{
+		{"bogus-acks", [][]string{{"attach:a1:A:B", "wait", "send:a1:m1"}, {"attach:b1:B:A", "wait", "acke:b1:7:2", "cleare:b1:7:2"}}},
+		{"ack-then-next", [][]string{{"attach:a1:A:B", "wait", "send:a1:m1", "wait", "send:a1:m2"}, {"attach:b1:B:A", "wait", "ack:b1:last"}}},
+		{"sender-clears", [][]string{{"attach:a1:A:B", "wait", "send:a1:m1", "clear:a1:1", "send:a1:m2"}, {"attach:b1:B:A"}}},
+	}
+	if !run.Quick() {
+		s1 = append(s1, sigh.Scen{"stale-ack-after-second-message", [][]string{{"attach:a1:A:B", "wait", "send:a1:m1", "wait", "send:a1:m2"}, {"attach:b1:B:A", "wait", "ack:b1:last", "wait", "acke:b1:1:2", "ack:b1:last"}}})
+	}
+	pb := 1
+	if !run.Quick() {
+		pb = 2
+	}
+	sigh.ExploreS1(t, run, agg, "V21:", s1, pb)
 	agg.Finish(true)
+	agg.RequireTag("saw AckMsg")
 	run.Cov["delay_bound"] = bound
 	run.Assumptions = append(run.Assumptions, "real relay server and two real signaling clients over instrumented in-memory streams; constant 1 s back-off; virtual time")
 	run.Finish(t)
